@@ -1,0 +1,231 @@
+//! Verification hooks. Compiled only with `--cfg ferrous_verif`; inert unless armed.
+//!
+//! Everything here is add-only instrumentation used by the external model-based
+//! verification harness: an ordered command log, named sync points, an event-loop
+//! gate, counters and a write-failure injector for the RDB writer.
+
+use std::collections::HashMap;
+use std::sync::atomic::{AtomicBool, AtomicI64, AtomicU64, Ordering};
+use std::sync::{Arc, Condvar, Mutex};
+use std::time::{Duration, Instant};
+
+use crate::protocol::RespFrame;
+
+/// One ordered observation made on the command thread.
+#[derive(Clone, Debug)]
+pub struct Ev {
+    pub seq: u64,
+    pub kind: &'static str,
+    pub conn: u64,
+    pub frames: Vec<RespFrame>,
+    pub text: String,
+}
+
+/// Handles registered by `Server::from_config` so the harness can inspect them.
+#[derive(Clone)]
+pub struct Registry {
+    pub storage: Arc<crate::storage::StorageEngine>,
+    pub blocking: Arc<crate::network::blocking::BlockingManager>,
+    pub rdb: Option<Arc<crate::storage::RdbEngine>>,
+    pub pubsub: Arc<crate::pubsub::PubSubManager>,
+}
+
+pub static LOG_ON: AtomicBool = AtomicBool::new(false);
+pub static LOOP_ITER: AtomicU64 = AtomicU64::new(0);
+pub static SWEEP_PASSES: AtomicU64 = AtomicU64::new(0);
+pub static RDB_WRITES: AtomicU64 = AtomicU64::new(0);
+/// Fail the n-th (0-based) raw write of the RDB writer; negative = off.
+pub static RDB_FAIL_AT: AtomicI64 = AtomicI64::new(-1);
+
+static ANY_ARMED: AtomicBool = AtomicBool::new(false);
+static GATE_ON: AtomicBool = AtomicBool::new(false);
+
+struct Shared {
+    log: Vec<Ev>,
+    seq: u64,
+    /// name -> (armed, reached count, release permits)
+    points: HashMap<String, (bool, u64, u64)>,
+    gate_permits: u64,
+    registry: Option<Registry>,
+}
+
+lazy_static::lazy_static! {
+    static ref SHARED: (Mutex<Shared>, Condvar) = (
+        Mutex::new(Shared { log: Vec::new(), seq: 0, points: HashMap::new(), gate_permits: 0, registry: None }),
+        Condvar::new(),
+    );
+}
+
+pub fn register(reg: Registry) {
+    SHARED.0.lock().unwrap().registry = Some(reg);
+}
+
+pub fn registry() -> Option<Registry> {
+    SHARED.0.lock().unwrap().registry.clone()
+}
+
+/// Append an ordered event (only while logging is switched on).
+pub fn log(kind: &'static str, conn: u64, frames: Vec<RespFrame>, text: String) {
+    if !LOG_ON.load(Ordering::Relaxed) {
+        return;
+    }
+    let mut s = SHARED.0.lock().unwrap();
+    s.seq += 1;
+    let seq = s.seq;
+    s.log.push(Ev { seq, kind, conn, frames, text });
+}
+
+pub fn logging() -> bool {
+    LOG_ON.load(Ordering::Relaxed)
+}
+
+/// Take all events recorded so far.
+pub fn drain_log() -> Vec<Ev> {
+    std::mem::take(&mut SHARED.0.lock().unwrap().log)
+}
+
+/// A named sync point: returns at once unless the harness armed `name`, in which
+/// case it announces that it was reached and waits for a release permit.
+pub fn sync_point(name: &str) {
+    if !ANY_ARMED.load(Ordering::Relaxed) {
+        return;
+    }
+    let (m, cv) = &*SHARED;
+    let mut s = m.lock().unwrap();
+    match s.points.get_mut(name) {
+        Some(p) if p.0 => {
+            p.1 += 1;
+        }
+        _ => return,
+    }
+    cv.notify_all();
+    loop {
+        match s.points.get_mut(name) {
+            Some(p) if p.0 => {
+                if p.2 > 0 {
+                    p.2 -= 1;
+                    return;
+                }
+            }
+            _ => return,
+        }
+        s = cv.wait(s).unwrap();
+    }
+}
+
+pub fn arm(name: &str) {
+    let (m, _) = &*SHARED;
+    let mut s = m.lock().unwrap();
+    s.points.insert(name.to_string(), (true, 0, 0));
+    ANY_ARMED.store(true, Ordering::Relaxed);
+}
+
+/// Disarm and let any waiter go.
+pub fn disarm(name: &str) {
+    let (m, cv) = &*SHARED;
+    let mut s = m.lock().unwrap();
+    s.points.remove(name);
+    if s.points.is_empty() {
+        ANY_ARMED.store(false, Ordering::Relaxed);
+    }
+    cv.notify_all();
+}
+
+/// Wait until `name` has been reached at least `count` times since it was armed.
+pub fn wait_reached(name: &str, count: u64, timeout: Duration) -> bool {
+    let (m, cv) = &*SHARED;
+    let deadline = Instant::now() + timeout;
+    let mut s = m.lock().unwrap();
+    loop {
+        if let Some(p) = s.points.get(name) {
+            if p.1 >= count {
+                return true;
+            }
+        }
+        let now = Instant::now();
+        if now >= deadline {
+            return false;
+        }
+        s = cv.wait_timeout(s, deadline - now).unwrap().0;
+    }
+}
+
+/// Let one waiter at `name` continue.
+pub fn release(name: &str) {
+    let (m, cv) = &*SHARED;
+    let mut s = m.lock().unwrap();
+    if let Some(p) = s.points.get_mut(name) {
+        p.2 += 1;
+    }
+    cv.notify_all();
+}
+
+/// Top of the server's event loop: counts iterations and, when the gate is on,
+/// waits for one permit per iteration.
+pub fn loop_top() {
+    if GATE_ON.load(Ordering::Relaxed) {
+        let (m, cv) = &*SHARED;
+        let mut s = m.lock().unwrap();
+        while GATE_ON.load(Ordering::Relaxed) && s.gate_permits == 0 {
+            s = cv.wait(s).unwrap();
+        }
+        if s.gate_permits > 0 {
+            s.gate_permits -= 1;
+        }
+    }
+    LOOP_ITER.fetch_add(1, Ordering::SeqCst);
+    if GATE_ON.load(Ordering::Relaxed) {
+        SHARED.1.notify_all();
+    }
+}
+
+pub fn gate(on: bool) {
+    let (m, cv) = &*SHARED;
+    let mut s = m.lock().unwrap();
+    GATE_ON.store(on, Ordering::SeqCst);
+    s.gate_permits = 0;
+    cv.notify_all();
+}
+
+/// Allow `n` further loop iterations.
+pub fn gate_step(n: u64) {
+    let (m, cv) = &*SHARED;
+    let mut s = m.lock().unwrap();
+    s.gate_permits += n;
+    cv.notify_all();
+}
+
+/// Called by the RDB writer before every raw write; true = inject a failure.
+pub fn rdb_write_should_fail() -> bool {
+    let n = RDB_WRITES.fetch_add(1, Ordering::SeqCst) as i64;
+    let at = RDB_FAIL_AT.load(Ordering::SeqCst);
+    at >= 0 && n == at
+}
+
+/// Logs one executed request: `done` records request and reply; if the handler
+/// returned early with `Err` (the guard is dropped without `done`) a `cmderr`
+/// event is recorded instead.
+pub struct CmdGuard {
+    conn: u64,
+    req: Option<RespFrame>,
+}
+
+impl CmdGuard {
+    pub fn new(conn: u64, req: &RespFrame) -> Self {
+        CmdGuard { conn, req: if logging() { Some(req.clone()) } else { None } }
+    }
+
+    pub fn done(&mut self, reply: &RespFrame) {
+        if let Some(req) = self.req.take() {
+            log("cmd", self.conn, vec![req, reply.clone()], String::new());
+        }
+    }
+}
+
+impl Drop for CmdGuard {
+    fn drop(&mut self) {
+        if let Some(req) = self.req.take() {
+            log("cmderr", self.conn, vec![req], String::new());
+        }
+    }
+}
